@@ -15,7 +15,10 @@ HOLIDAY_NAMES = [u'å…ƒæ—¦èŠ‚', u'æ˜¥èŠ‚', u'æ¸…æ˜èŠ‚', u'åŠ³åŠ¨èŠ‚', u'ç«¯åˆèŠ
 
 
 def run(ctx):
+    ctx.exhaustive = False
+    ctx.exhaustive_note = 'complete over all month-days, all holiday records and every date of the covered years; lunar festivals on 4 scenario calendars'
     from rules import shared
+    ctx.include('effect_inventory', shared.effect_inventory)   # no new process-wide mutable state (MIR statics inventory)
     ctx.include('month_records', shared.month_records)   # leap table, solstice anchor, month memo, memo cells (shared, cached per source hash)
     I = ctx.interp(fuel=200000000)
     t = T(I)
